@@ -302,6 +302,31 @@ func zsetScripts() [][][]string {
 			{"zadd", "k1", "xx", "incr", "2", "absent"}, {"zadd", "k1", "nx", "incr", "2", "a"}, {"zadd", "k1", "3", "a"}, {"zadd", "k1", "ch", "3", "a"}, {"zrange", "k1", "-inf", "+inf", "withscores"},
 			{"zadd", "k1", "+inf", "a"}, {"zincrby", "k1", "1", "a"}, {"zadd", "k1", "incr", "1", "a"},
 		},
+		// regression inputs of repaired defects (second batch), one script per repair.
+		// ZREMRANGEBYRANK with the start after the stop removes nothing (it used to remove the ranks stop..start)
+		{{"zadd", "k1", "1", "a", "2", "b", "3", "c"}, {"zremrangebyrank", "k1", "2", "0"}, {"zremrangebyrank", "k1", "-1", "-3"}, {"zremrangebyrank", "k1", "1", "0"},
+			{"zrange", "k1", "-inf", "+inf", "withscores"}, {"zremrangebyrank", "k1", "1", "1"}, {"zremrangebyrank", "k1", "-2", "-1"}, {"zrange", "k1", "-inf", "+inf", "withscores"}},
+		// ZRANK / ZREVRANK take the documented WITHSCORE as well as WITHSCORES (WITHSCORE used to be ignored)
+		{{"zadd", "k1", "1", "a", "2.5", "b", "+inf", "c"}, {"zrank", "k1", "b", "withscore"}, {"zrevrank", "k1", "c", "WithScore"}, {"zrank", "k1", "a", "WITHSCORES"},
+			{"zrevrank", "k1", "b", "withscores"}, {"zrank", "k1", "b", "x"}, {"zrank", "k1", "zz", "withscore"}, {"zrank", "k9", "a", "withscore"}},
+		// ZCOUNT takes every spelling of infinity on both bounds (only +inf for min and -inf for max passed besides inf / Inf)
+		{{"zadd", "k1", "1", "a", "2", "b", "-inf", "lo", "+inf", "hi"}, {"zcount", "k1", "-INF", "+INF"}, {"zcount", "k1", "-Inf", "2"}, {"zcount", "k1", "INF", "+inf"},
+			{"zcount", "k1", "-Infinity", "+infinity"}, {"zcount", "k1", "2", "Inf"}, {"zcount", "k1", "+inf", "-inf"}, {"zcount", "k1", "-iNf", "1"},
+			{"zcount", "k1", "min", "2"}, {"zcount", "k1", "1", "max"}, {"zcount", "k1", "nan", "2"}, {"zcount", "k9", "-INF", "+INF"}},
+		// ZADD on a key that reads as a number (the scan for the first score used to start at the key)
+		{{"zadd", "1", "2", "m"}, {"zadd", "2.5", "nx", "1", "m", "3", "n"}, {"zadd", "-inf", "1", "m"}, {"zadd", "1", "xx", "ch", "5", "m"}, {"zadd", "1", "nx", "a", "b"},
+			{"zrange", "1", "-inf", "+inf", "withscores"}, {"zrange", "2.5", "-inf", "+inf", "withscores"}, {"zrange", "-inf", "-inf", "+inf", "withscores"}},
+		// ZUNIONSTORE without a source key is refused (it used to store the empty union); ZINTERSTORE with one source key takes
+		// options (it used to want two source keys before the first option)
+		{{"zadd", "k1", "1", "a", "2", "b"}, {"zadd", "d", "9", "old"}, {"zunionstore", "d", "weights"}, {"zunionstore", "d", "WEIGHTS", "1"}, {"zunionstore", "d", "aggregate", "sum"},
+			{"zinterstore", "d", "withscores"}, {"zrange", "d", "-inf", "+inf", "withscores"}, {"zinterstore", "d", "k1", "weights", "2"}, {"zrange", "d", "-inf", "+inf", "withscores"},
+			{"zinterstore", "d", "k1", "withscores"}, {"zinterstore", "d", "k1", "AGGREGATE", "max", "weights", "3"}, {"zrange", "d", "-inf", "+inf", "withscores"},
+			{"zunionstore", "d", "k1", "weights", "3"}, {"zrange", "d", "-inf", "+inf", "withscores"}, {"zinterstore", "d", "k1", "weights", "1", "2"}},
+		// ZADD refuses NX with XX and GT with LT (the later flag used to replace the earlier one); a repeated flag is accepted
+		{{"zadd", "k1", "1", "a"}, {"zadd", "k1", "nx", "xx", "5", "a"}, {"zadd", "k1", "XX", "nx", "5", "a", "5", "m"}, {"zadd", "k1", "gt", "lt", "5", "a"},
+			{"zadd", "k1", "LT", "ch", "GT", "0", "a"}, {"zadd", "k1", "xx", "gt", "lt", "5", "a"}, {"zadd", "k1", "nx", "gt", "5", "a"}, {"zadd", "k9", "nx", "xx", "5", "a"},
+			{"zrange", "k1", "-inf", "+inf", "withscores"}, {"zadd", "k1", "nx", "NX", "7", "fresh"}, {"zadd", "k1", "gt", "GT", "xx", "XX", "9", "a"},
+			{"zrange", "k1", "-inf", "+inf", "withscores"}, {"zcard", "k9"}},
 	}
 }
 
